@@ -54,7 +54,7 @@ PROPS["C02"] = _hist(
     "their last byte) and binary stems; every stem-prefix the model holds is looked up top-down, rebuilt bottom-up and must appear "
     "once in the full traversal, mutated neighbours must be absent, and the raw decoder checks S1-S5 (whole blocks, pointers in "
     "range, each block reached once, strict BST on full stems, parent pointers, contiguous flagged tails). Non-trivial: >= 10 "
-    "stored stem-prefixes incl. >= 1 stem longer than one block or >= 1 non-Hyphe-shaped LRU; distinct = distinct final store bytes.",
+    "stored stem-prefixes at the end; distinct = distinct final store bytes.",
     lambda f: f["nodes"] >= 10,
     ["C02_lookups", "C02_absent_probes", "decodes"],
     ["LRUTrie.lru_node", "LRUTrie.windup_lru", "LRUTrie.dfs_iter", "LRUTrieNode.read", "detailed_chunks_iter"],
@@ -113,7 +113,7 @@ PROPS["C06"] = _hist(
     "populated indexes and reopen; every write report's created_webentities is compared with the model ladder (E, K, default "
     "only if both absent; variations not yet owned), every inserted page must resolve to max(E,K), get_potential_prefix is "
     "compared on pages/prefixes/absent LRUs and must not write, rule installation must re-insert exactly the pages beneath its "
-    "anchor (observed order replayed in the model). Non-trivial: >= 2 automatic creations and >= 1 rule anchor in the index.",
+    "anchor (observed order replayed in the model). Non-trivial: >= 2 webentity creations reported and >= 5 pages.",
     lambda f: f["auto_groups"] >= 2 and f["pages"] >= 5,
     ["C06_potential", "C06_resolves_after_insert", "reports_checked"],
     ["Traph.__add_page", "Traph.get_potential_prefix", "Traph.add_webentity_creation_rule_iter", "LRUTrieWalkHistory.rules_to_apply", "lru_variations"],
@@ -127,7 +127,7 @@ PROPS["C07"] = _hist(
     "histories with unresolved pages (LRUs the default rule does not match), nested prefixes and links across and inside "
     "webentities; both network variants x 2 directions x include_auto are compared with model links pushed through model "
     "resolution, crawled/uncrawled tallies with the pages resolving to each webentity, inbound with the transpose of outbound. "
-    "Non-trivial: >= 3 webentities, >= 6 link pairs, >= 1 unresolved page.",
+    "Non-trivial: >= 3 webentities and >= 6 link pairs.",
     lambda f: f["we"] >= 3 and f["pairs"] >= 6,
     ["C07_networks", "C07_transposes"],
     ["LRUTrie.dfs_with_webentity_iter", "Traph.get_webentities_links_iter", "Traph.get_webentities_links_slow_iter", "LRUTrie.windup_lru_for_webentity"],
@@ -219,7 +219,7 @@ PROPS["C09"] = _paging(
     "given order: sorted(pages resolving to that prefix)]; in half of the runs 0-3 pages are inserted between successive calls "
     "(before/at/after the cursor, under other prefixes, re-submissions, with automatic creation) and the trace is checked for "
     "repeats, skipped throughout-pages and alien pages; token codec round-trips exhaustively for paths up to the stated length; "
-    "one isolated deep-chain probe. Non-trivial: >= 2 webentities and >= 8 pages; distinct = distinct store bytes.",
+    "one isolated deep-chain probe. Non-trivial: >= 1 webentity and >= 4 pages; distinct = distinct store bytes.",
     lambda f: f["we"] >= 1 and f["pages"] >= 4,
     ["C09_paginations", "C09_multi_call_paginations", "C09_resumes", "C09_codec_roundtrips"],
     ["LRUTrie.webentity_inorder_iter", "Traph.paginate_webentity_pages", "build_pagination_token", "parse_pagination_token"],
@@ -236,7 +236,7 @@ PROPS["C10"] = _paging(
     "(prefixes shuffled) x 3 switch settings x source counts {1,2,3,n,n+1} (every count for exhaustive shapes) is paged through "
     "feeding every token back; every issued token must be resumable, each non-final answer must cover exactly the requested "
     "number of sources, counts must match contents and the concatenation must equal get_webentity_pagelinks as a multiset of "
-    "(source,target,weight). One isolated deep-chain probe. Non-trivial: >= 2 webentities, >= 4 link pairs.",
+    "(source,target,weight). One isolated deep-chain probe. Non-trivial: >= 1 webentity and >= 2 link pairs; distinct = store bytes.",
     lambda f: f["we"] >= 1 and f["pairs"] >= 2,
     ["C10_paginations", "C10_multi_call_paginations", "C10_resumes"],
     ["LRUTrie.webentity_inorder_iter", "Traph.paginate_webentity_pagelinks", "Traph.get_webentity_pagelinks_iter"],
